@@ -564,7 +564,9 @@ class ChanRun:
                     order = self._session_order.index(i)
 
                     if order != self.next_session:
-                        raise RuntimeError('session order confusion')
+                        # an earlier open died before reaching the server
+                        # (the connection is going away): give up on this one
+                        raise OSError('earlier session open was lost')
 
                     if ch['reader_c'] == 'stream':
                         w, r, e = await conn.open_session(command='c%d' % i,
